@@ -135,3 +135,63 @@ def strategies(tier, seed):
     if tier == "quick":
         return [{"kind": "dfs", "bound": 2, "max": 1500}, {"kind": "pct", "depth": 3, "runs": 500, "seed": seed}]
     return [{"kind": "dfs", "bound": 3, "max": 60000}, {"kind": "pct", "depth": 3, "runs": 20000, "seed": seed}, {"kind": "random", "runs": 5000, "seed": seed + 1}]
+
+
+def cache_families(kind, kt, vt, strat):
+    """C02 / C05 / C06 / C07 families for one cache container. Entries are made live, expired-uncleaned or absent by
+    the preload (Set with a TTL, then Tick past it); the clock is frozen while the threads run."""
+    fam = []
+    v = Vals(10)
+
+    def add(name, keys, preload, threads, final=None, cb="cb1"):
+        sc = base("%s/%s[%s]" % (name, kind, kt), kind, kt, vt, pin_of(keys), preload, threads, final or sorted(keys), strat)
+        sc["cache"]["cb"] = cb
+        fam.append(sc)
+
+    two = {"k1": (FOCUS, 1), "k2": (FOCUS, 2)}
+    exp1 = [S("Set", "k1", v(), d=5), S("Set", "k2", v(), d=50), S("Tick", d=6)]   # k1 expired-uncleaned, k2 live
+    # G1 DeleteExpired || Set of the expired key || readers  (a completed store must never be lost)
+    add("G1-deleteexpired-vs-set", two, exp1,
+        [[S("DeleteExpired")], [S("Set", "k1", v(), d=-2000000000), S("Get", "k1")], [S("Get", "k1"), S("Get", "k2")]])
+    add("G1b-deleteexpired-vs-getorset", two, exp1,
+        [[S("DeleteExpired")], [S("GetOrSet", "k1", v(), d=100)], [S("GetAndSet", "k1", v(), d=100), S("Get", "k1")]])
+    # G2 two overlapping removers of the same expired entry (callback at most once)
+    add("G2-two-deleteexpired", two, exp1,
+        [[S("DeleteExpired")], [S("DeleteExpired")], [S("Get", "k2")]])
+    add("G2b-deleteexpired-vs-delete", two, exp1,
+        [[S("DeleteExpired")], [S("Delete", "k1")], [S("GetAndDelete", "k1"), S("Count")]])
+    add("G2c-deleteexpired-vs-compute", two, exp1,
+        [[S("DeleteExpired")], [S("Compute", "k1", v(), fn="set", d=100)], [S("GetAndRefresh", "k1", d=10), S("Get", "k1")]])
+    # G3 lazy deletion on read || writer of the same key
+    add("G3-lazydelete-vs-set", two, exp1,
+        [[S("Get", "k1")], [S("Set", "k1", v(), d=100)], [S("GetWithTTL", "k1"), S("GetWithExpiration", "k1")]])
+    add("G3b-lazydelete-vs-getorcompute", two, exp1,
+        [[S("Get", "k1")], [S("GetOrCompute", "k1", v(), d=100)], [S("GetOrCompute", "k1", v(), d=100)]])
+    # G4 read-modify-write racers on one key: live / expired-uncleaned / absent
+    for nm, pre in (("live", [S("Set", "k1", v(), d=50)]), ("expired", [S("Set", "k1", v(), d=5), S("Tick", d=6)]), ("absent", [])):
+        add("G4-racers-" + nm, two, pre,
+            [[S("GetOrSet", "k1", v(), d=100)], [S("GetOrCompute", "k1", v(), d=100)], [S("GetOrSet", "k1", v(), d=100), S("Get", "k1")]])
+        add("G4b-rmw-" + nm, two, pre,
+            [[S("GetAndSet", "k1", v(), d=100)], [S("Compute", "k1", v(), fn="toggle", d=100)], [S("GetAndRefresh", "k1", d=100), S("Compute", "k1", v(), fn="setifabsent", d=7)]])
+    # G5 removers racing each other and a writer (exactly-once eviction of the very entry)
+    add("G5-removers", two, [S("Set", "k1", v(), d=50)],
+        [[S("Delete", "k1")], [S("GetAndDelete", "k1")], [S("Set", "k1", v(), d=50), S("GetAndDelete", "k1")]])
+    # G6 callback swapped while removers run
+    add("G6-callback-swap", two, [S("Set", "k1", v(), d=50), S("Set", "k2", v(), d=5), S("Tick", d=6)],
+        [[S("SetEvictedCallback", fn="cb2")], [S("Delete", "k1")], [S("DeleteExpired")]])
+    # G7 re-entrant callbacks
+    for cb in ("cbGet", "cbSet", "cbDel", "cbCount"):
+        add("G7-reentrant-" + cb, two, exp1, [[S("DeleteExpired")], [S("Delete", "k2")]], cb=cb)
+    # G8 Clear || writers || DeleteExpired
+    add("G8-clear", two, exp1,
+        [[S("Clear")], [S("Set", "k2", v(), d=50), S("Get", "k2")], [S("DeleteExpired"), S("Count")]])
+    # G9 Range / Items || writers, expired entries never visited
+    add("G9-range", dict(two, k3=(OTHER, 3)), exp1 + [S("Set", "k3", v(), d=50)],
+        [[S("Range", fn="all")], [S("Set", "k1", v(), d=50), S("Delete", "k3")], [S("Items")]])
+    for fn in ("del", "upd", "ins", "clear", "load", "stop:1"):
+        add("G9b-visitor-" + fn, dict(two, k3=(OTHER, 3), k4=(OTHER, 4)), exp1 + [S("Set", "k3", v(), d=50)],
+            [[S("Range", k="k4", v=v(), fn=fn), S("Count")], [S("Set", "k3", v(), d=50)]])
+    # G10 default expiration changed while stores run
+    add("G10-default-swap", two, [],
+        [[S("SetDefaultExpiration", d=7)], [S("SetDefault", "k1", v()), S("GetWithExpiration", "k1")], [S("Set", "k2", v(), d=-1000000000), S("GetWithTTL", "k2"), S("DefaultExpiration")]])
+    return fam
